@@ -191,6 +191,10 @@ def I(x):
 
 
 def realval(x):
+    """floats are reals: a float constant denotes the decimal number it is written as (0.0005 is 1/2000, not the
+    nearest binary64), i.e. the shortest decimal that round-trips"""
+    if isinstance(x, float):
+        return z3.RealVal(str(fractions.Fraction(repr(x))))
     return z3.RealVal(str(fractions.Fraction(x)))
 
 
@@ -521,8 +525,8 @@ class Engine:
             w = L + c if c < 0 else z3.IntVal(c)
         else:
             i = I(idx)
-            if self.specmode:
-                w = i
+            if self.specmode or not self.feasible(st, i < 0):
+                w = i            # provably non-negative on this path: no wrap
             else:
                 w = z3.If(i < 0, i + L, i)
         w = simp(w) if not isinstance(w, int) else z3.IntVal(w)
@@ -607,6 +611,13 @@ class Engine:
                 return ModRef(full)
             if full.startswith('numpy.') and a in NP_DTYPES:
                 return np_dtype(a, self.spec.mode)
+            if full in ('numpy.ubyte',):
+                return np_dtype('uint8', self.spec.mode)
+            if full == 'numpy.nan':
+                # NaN has no real-number semantics: an arbitrary (unconstrained) real
+                return SV(fresh('nan', z3.RealSort()), 'real')
+            if full == 'numpy.integer':
+                return Builtin('numpy.integer')
             if full in ('numba.config', 'numpy.random', 'numpy.fft', 'scipy.fft', 'numba.typed'):
                 return ModRef(full)
             if full == 'numba.config.NUMBA_NUM_THREADS':
@@ -1119,6 +1130,8 @@ class Engine:
                     v = int(v)
                 return int(v)
             if is_bv(dt.tag):
+                if dt.tag == 'i64':
+                    return int(v)       # int64 counters/indices stay mathematical (assumption: no overflow below 2^63)
                 return SV(z3.BitVecVal(int(v), BVT[dt.tag][0]), dt.tag)
             if dt.tag == 'bool':
                 return bool(v)
@@ -1396,6 +1409,10 @@ class Engine:
                 self.specmode -= 1
             for inst in uf(*args):
                 st.pc.append(inst)
+            return
+        if h.startswith('mention '):
+            # evaluate a ghost term so that the instances of its definitions join the path condition
+            self.spec_eval(h[8:], st)
             return
         g = self.spec_bool(h, st)
         self.oblige(st, kind, g, node, label=h)
